@@ -46,7 +46,10 @@ class Source(sm.SM):
     test = "source::verif_hook::verif_source"
 
     def configs(self, prop, tier):
-        return QUICK[prop] if tier == "quick" else ALL
+        if tier == "quick":
+            return QUICK[prop]
+        # thorough: every configuration in which the property constrains something (C07 and C13 speak about NTS only)
+        return [c for c in ALL if not (prop in ("C07", "C13") and not CONSTS[c]["Mode"].startswith("Nts"))]
 
     def harness_cfg(self, cfgname, init_state):
         c = dict(CONSTS[cfgname])
